@@ -14,7 +14,7 @@ import (
 func init() {
 	register(Property{
 		ID:          "C07",
-		Explanation: "Decided statically: A1 the inventory of file-system effects in the library is exactly {open/create + format.Node in the file writer, RemoveAll in the per-package function, open + Write in sumfile.Save}, by role (the role functions are found from the effects themselves; private helpers extracted from them belong to their unit); any other create/write/remove/rename/mkdir/exec site is a violation; R1 the written path is path.Join(<package source dir>, Filename) and Filename is Sprintf(\"%s.%s.go\", OutputFileBaseName, generator name); R2 the only store into the removal set is dominated by strings.HasPrefix(filepath.Base(file), OutputFileBaseName + \".\") and its values are file names of the processed package's own syntax files; RemoveAll's operand comes from that set only; R3 gengo.sum is written at filepath.Join(Dir, \"gengo.sum\") and Save is reachable only when All is set; R4 after every successful write the written file's name (same Filename method) is struck from the removal set before the next iteration, and no path leads from a removal to a write; R5 sibling agreement of the named-type and alias dispatchers: both treat ErrSkip as success, both set the ignore flag on ErrIgnore (read by IsZero so an empty generator keeps its old file), both propagate anything else; R6 a package is executed iff All or directly requested, and 'local' packages are those whose module is a requested package's module. R3 also: every non-nil file returned by sumfile.Load carries the directory it was asked to load from (Execute adopts that Dir for the file it saves). R7 the queue of files the per-package function writes is a variable declared in that function. R9 once the previous outputs are listed, every successful return of the per-package function passes the loop that removes the rest of the list (or the edge on which it is empty). NOT decided: byte-identity of every other file (it is the contrapositive of A1's completeness, assuming third-party callees - gofumpt, go/packages, go list - write nothing into the module tree).",
+		Explanation: "Decided statically: A1 the inventory of file-system effects in the library is exactly {open/create + format.Node in the file writer, RemoveAll in the per-package function, open + Write in sumfile.Save}, by role (the role functions are found from the effects themselves; private helpers extracted from them belong to their unit); any other create/write/remove/rename/mkdir/exec site is a violation; R1 the written path is path.Join(<package source dir>, Filename) and Filename is Sprintf(\"%s.%s.go\", OutputFileBaseName, generator name); R2 the only store into the removal set is dominated by strings.HasPrefix(filepath.Base(file), OutputFileBaseName + \".\") and its values are file names of the processed package's own syntax files; RemoveAll's operand comes from that set only; R3 gengo.sum is written at filepath.Join(Dir, \"gengo.sum\") and Save is reachable only when All is set; R4 after every successful write the written file's name (same Filename method) is struck from the removal set before the next iteration, and no path leads from a removal to a write; R5 sibling agreement of the named-type and alias dispatchers: both treat ErrSkip as success, both set the ignore flag on ErrIgnore (read by IsZero so an empty generator keeps its old file), both propagate anything else; R6 a package is executed iff All or directly requested, and 'local' packages are those whose module is a requested package's module. R3 also: every non-nil file returned by sumfile.Load carries the directory it was asked to load from (Execute adopts that Dir for the file it saves). R7 the queue of files the per-package function writes is a variable declared in that function. R9 once the previous outputs are listed, every successful return of the per-package function passes the loop that removes the rest of the list (or the edge on which it is empty). R10 = C13.R6 (files are written into the package's own directory); R11 = C01.R10 (a rendered body is never taken back before the write). NOT decided: byte-identity of every other file (it is the contrapositive of A1's completeness, assuming third-party callees - gofumpt, go/packages, go list - write nothing into the module tree).",
 		Assumptions: append([]string{"third-party callees (mvdan.cc/gofumpt, go/packages and the go command it runs, dirhash) do not write into the module tree"}, commonAssumptions...),
 		Run:         runC07,
 	})
